@@ -184,4 +184,96 @@ Section Refine.
     unfold commit_rule. cbn [b_hash b_qc b_parent b_view absb].
     repeat split; auto; try (rewrite H1; auto; now apply V); try now apply V.
   Qed.
+  (* ---------- simple HotStuff ---------- *)
+  Local Notation reachS := (reach RSimple member honest qsize genesis).
+  Local Notation stepS := (step RSimple member honest qsize genesis).
+
+  Lemma zero_absentS s : reachS s -> U s R.zero_hash = None.
+  Proof.
+    intros Hr.
+    exact (i_nogqc _ _ _ _ _ (reach_inv _ _ _ _ quorum_inter quorum_has_honest _
+                                        gen_view gen_parent gen_qc _ Hr)).
+  Qed.
+
+  Theorem simple_replica_vote_refines s r f lk v p qb :
+    let blk := R.p_block p in
+    reachS s -> honest r = true ->
+    view_of f (U s) ->
+    U s (R.b_hash blk) = Some (absb blk) ->
+    lock (locg s r) = absb lk ->
+    R.get f (R.qc_hash (R.b_qc blk)) = Some qb ->
+    cert s (R.qc_hash (R.b_qc blk)) ->
+    R.b_parent blk = R.qc_hash (R.b_qc blk) ->
+    R.b_view qb < R.b_view blk ->
+    lastVoted (locg s r) < R.b_view blk ->
+    R.simple_vote f lk v p = true ->
+    stepS s (cast_vote genesis s r (absb blk)) /\
+    lock (locg (cast_vote genesis s r (absb blk)) r) = absb (fst (R.simple_commit f lk blk)).
+  Proof.
+    intros blk Hr Hh V Hblk Hlk Hqb Hc Hpar Hvw Hlv Hvote.
+    pose proof (reach_inv _ _ _ _ quorum_inter quorum_has_honest _
+                          gen_view gen_parent gen_qc _ Hr) as I.
+    pose proof (zero_absentS _ Hr) as Z0.
+    pose proof (V _ _ Hqb) as Uqb.
+    pose proof (RP.get_some _ _ _ Hqb) as [_ Hqh].
+    unfold R.simple_vote in Hvote. fold blk in Hvote.
+    destruct (R.b_view blk <? v); [discriminate|]. rewrite Hqb in Hvote.
+    destruct (R.lock_target_ok f qb) eqn:LT; [|discriminate]. simpl in Hvote.
+    assert (Uqb' : U s (R.b_hash qb) = Some (absb qb)) by now rewrite Hqh.
+    assert (Hcq : cert s (R.b_hash qb)) by now rewrite Hqh.
+    assert (AV : (R.qc_hash (R.b_qc blk) = b_hash genesis /\ R.qc_hash (R.b_qc qb) = R.zero_hash)
+                 \/ exists b2, R.get f (R.qc_hash (R.b_qc qb)) = Some b2).
+    { unfold R.lock_target_ok in LT.
+      destruct (N.eqb_spec (R.qc_hash (R.b_qc qb)) R.zero_hash) as [Ez|Nz].
+      - left. split; auto. rewrite <- Hqh.
+        destruct (N.eq_dec (R.b_hash qb) (b_hash genesis)) as [E|NE]; [exact E|exfalso].
+        destruct (qc_of_certified _ _ _ quorum_has_honest _ _ (reach_uwf _ _ _ _ _ _ Hr) I
+                                  _ _ Hcq NE Uqb') as (_ & _ & _ & c1 & E1 & _).
+        simpl in E1. rewrite Ez, Z0 in E1. discriminate.
+      - right. destruct (R.get f (R.qc_hash (R.b_qc qb))) as [b2|] eqn:G2; [|discriminate].
+        eauto. }
+    split.
+    - apply step_vote with (c1 := absb qb); auto.
+      + destruct AV as [[Eg _]|(b2 & G2)]; [left; exact Eg|right].
+        exists (absb b2). simpl. now apply V.
+      + simpl. rewrite Hlk. cbn [b_view absb].
+        destruct (N.ltb_spec (R.b_view qb) (R.b_view lk)); [discriminate|assumption].
+    - rewrite loc_cast, upd_same. cbn [lock]. rewrite Hlk.
+      unfold new_lock. cbn [b_qc absb]. rewrite Uqb. cbn [b_qc absb].
+      unfold R.simple_commit, R.simple_commit_gen. rewrite Hqb.
+      destruct AV as [[_ Ez]|(b2 & G2)].
+      + rewrite Ez, Z0.
+        destruct (R.get f R.zero_hash) as [x|] eqn:Gz; [|reflexivity].
+        apply V in Gz. rewrite Z0 in Gz. discriminate.
+      + rewrite G2, (V _ _ G2). cbn [b_view absb].
+        destruct (R.b_view lk <? R.b_view b2);
+          destruct (R.get f (R.qc_hash (R.b_qc b2))) as [b3|];
+          try reflexivity;
+          match goal with |- context [if ?c then _ else _] => destruct c end; reflexivity.
+  Qed.
+
+  Definition small2 (b : R.block) : Prop := R.b_view b < R.two64 - 2.
+
+  Theorem simple_replica_commit_refines s f lk blk b3 :
+    reachS s -> view_of f (U s) ->
+    cert s (R.qc_hash (R.b_qc blk)) ->
+    snd (R.simple_commit f lk blk) = Some b3 ->
+    (forall x, In x f -> small2 x) ->
+    exists b1 b2,
+      R.get f (R.qc_hash (R.b_qc blk)) = Some b1 /\
+      commit_rule RSimple member qsize genesis s (absb b3) (absb b2) (absb b1).
+  Proof.
+    intros Hr V Hc Hcm Sm. unfold R.simple_commit, R.simple_commit_gen in Hcm.
+    destruct (R.get f (R.qc_hash (R.b_qc blk))) as [b1|] eqn:G1; [|discriminate].
+    destruct (R.get f (R.qc_hash (R.b_qc b1))) as [b2|] eqn:G2; [|discriminate].
+    destruct (R.get f (R.qc_hash (R.b_qc b2))) as [b3'|] eqn:G3; [|discriminate].
+    match type of Hcm with context [if ?c then _ else _] => destruct c eqn:C end; [|discriminate].
+    simpl in Hcm. injection Hcm as <-.
+    pose proof (RP.get_some _ _ _ G1) as [I1 H1]. pose proof (RP.get_some _ _ _ G3) as [I3 H3].
+    rewrite andb_true_iff, N.eqb_eq in C. destruct C as [A2 _].
+    rewrite RP.add2_64_small in A2 by (apply Sm; exact I3).
+    exists b1, b2. split; [reflexivity|].
+    unfold commit_rule. cbn [b_hash b_qc b_parent b_view absb].
+    repeat split; auto; try (rewrite H1; auto; now apply V); try now apply V.
+  Qed.
 End Refine.
